@@ -104,7 +104,8 @@ pub fn set_mathml(mathml_str: String) -> Result<String> {
         // (turning some other declaration such as xmlns:xlink into a second default namespace makes the parse fail)
         static ref NAMESPACE_DECL: Regex = Regex::new(r#"xmlns:[[:alpha:]]+(\s*=\s*['"]http://www\.w3\.org/1998/Math/MathML['"])"#).unwrap();
         static ref PREFIX: Regex = Regex::new(r#"(</?)[[:alpha:]]+:"#).unwrap();     // very limited namespace prefix match
-        static ref HTML_ENTITIES: Regex = Regex::new(r#"&([a-zA-Z0-9]+?);"#).unwrap();
+        // (comments, processing instructions and CDATA sections are matched first so that what looks like an entity inside them is left alone)
+        static ref HTML_ENTITIES: Regex = Regex::new(r#"(?s)<!--.*?-->|<\?.*?\?>|<!\[CDATA\[.*?\]\]>|&([a-zA-Z0-9]+?);"#).unwrap();
     }
 
     NAVIGATION_STATE.with(|nav_stack| {
@@ -121,13 +122,13 @@ pub fn set_mathml(mathml_str: String) -> Result<String> {
         let mut error_message = "".to_string(); // can't return a result inside the replace_all, so we do this hack of setting the message and then returning the error
                                                 // need to deal with character data and convert to something the parser knows
         let mathml_str =
-            HTML_ENTITIES.replace_all(&mathml_str, |cap: &Captures| match HTML_ENTITIES_MAPPING.get(&cap[1]) {
+            HTML_ENTITIES.replace_all(&mathml_str, |cap: &Captures| if cap.get(1).is_none() {cap[0].to_string()} else {match HTML_ENTITIES_MAPPING.get(&cap[1]) {
                 None => {
                     error_message = format!("No entity named '{}'", &cap[0]);
                     cap[0].to_string()
                 }
                 Some(&ch) => ch.to_string(),
-            });
+            }});
 
         if !error_message.is_empty() {
             bail!(error_message);
